@@ -13,9 +13,9 @@ CONSTANTS MaxStmts, MaxDecorated, NTexts, Export
 VARIABLES ss
 vars == <<ss>>
 
-Raw(x) == Node("raw", x, <<>>)
+RawLit(x) == Node("raw", x, <<>>)
 ExtraTemplates ==
-  { E(Node("un", "--", <<A>>)), E(Node("call", "", <<Id("f"), Raw("r")>>)), Let("m", Raw("a  \n b ")),
+  { E(Node("un", "--", <<A>>)), E(Node("call", "", <<Id("f"), RawLit("r")>>)), Let("m", RawLit("a  \n b ")),
     If(A, E(Node("call", "", <<Grp(B)>>)), E(Node("idx", "", <<Node("arr", "", <<A>>), Num("0")>>))),
     Node("while", "", <<A, If(B, E(Id("c")), E(Id("d")))>>),
     Node("for", "", <<Nil, Nil, Nil, E(Node("un", "-", <<A>>))>>),
